@@ -39,26 +39,62 @@ func runC20(w *World, r *Report, tier string) {
 			badForm = "ensurePort has a loop or panics"
 			return
 		}
-		as := mergeConstAtoms(strAtoms(ret.Results[0]))
+		resolved := rvI(ret.Results[0], len(path)-1)
 		var parts []string
+		isPort := func(v ssa.Value) bool {
+			v = rvAny(v)
+			if cv, ok := v.(*ssa.Convert); ok {
+				v = rvAny(cv.X)
+			}
+			return v == ssa.Value(port)
+		}
+		itoaPort := func(v ssa.Value) bool {
+			c, ok := rvAny(v).(*ssa.Call)
+			return ok && w.callKey(c) == "strconv.Itoa" && isPort(c.Call.Args[0])
+		}
+		var atomsOf func(v ssa.Value, depth int) []atom
+		atomsOf = func(v ssa.Value, depth int) []atom {
+			var out []atom
+			for _, a := range strAtoms(v) {
+				if a.IsC || depth > 4 {
+					out = append(out, a)
+					continue
+				}
+				rvv := rvAny(a.Val)
+				if c, ok := rvv.(*ssa.Call); ok && w.callKey(c) == "net.JoinHostPort" {
+					// JoinHostPort(h, p) is "[" + h + "]:" + p when h contains a colon (checked against the row's conditions below)
+					out = append(out, atom{Const: "[", IsC: true})
+					out = append(out, atomsOf(c.Call.Args[0], depth+1)...)
+					out = append(out, atom{Const: "]:", IsC: true})
+					out = append(out, atomsOf(c.Call.Args[1], depth+1)...)
+					parts = append(parts, "")
+					continue
+				}
+				if rvv != a.Val {
+					out = append(out, atomsOf(rvv, depth+1)...)
+					continue
+				}
+				out = append(out, a)
+			}
+			return out
+		}
+		usedJoin := false
+		preLen := len(parts)
+		as := mergeConstAtoms(atomsOf(resolved, 0))
+		if len(parts) > preLen {
+			usedJoin = true
+		}
+		parts = parts[:0]
 		for _, a := range as {
 			switch {
 			case a.IsC:
 				parts = append(parts, fmt.Sprintf("%q", a.Const))
-			case a.Val == ssa.Value(addr):
+			case rvAny(a.Val) == ssa.Value(addr):
 				parts = append(parts, "addr")
+			case itoaPort(a.Val):
+				parts = append(parts, "Itoa(port)")
 			default:
-				if c, ok := a.Val.(*ssa.Call); ok && w.callKey(c) == "strconv.Itoa" && c.Call.Args[0] == ssa.Value(port) {
-					parts = append(parts, "Itoa(port)")
-				} else if c, ok := a.Val.(*ssa.Call); ok && w.callKey(c) == "strconv.Itoa" {
-					if cv, ok := c.Call.Args[0].(*ssa.Convert); ok && cv.X == ssa.Value(port) {
-						parts = append(parts, "Itoa(port)")
-					} else {
-						parts = append(parts, "?"+w.nf(a.Val, 0))
-					}
-				} else {
-					parts = append(parts, "?"+w.nf(a.Val, 0))
-				}
+				parts = append(parts, "?"+w.nfOn(a.Val, path))
 			}
 		}
 		form := strings.Join(parts, "+")
@@ -67,7 +103,20 @@ func runC20(w *World, r *Report, tier string) {
 		default:
 			badForm = "a return of ensurePort has the form " + form + ": the given host/port is not kept intact or something other than a port is added (return at " + w.ipos(ret) + ")"
 		}
-		rows = append(rows, row{w.pathConds(path), form})
+		conds := w.pathConds(path)
+		if usedJoin {
+			// net.JoinHostPort brackets the host only if it contains a colon: the row must exclude the colon-free case
+			okJ := false
+			for _, c := range conds {
+				if strings.HasPrefix(c, "eq(0,strings.Count(") && strings.HasSuffix(c, "=false") {
+					okJ = true
+				}
+			}
+			if !okJ {
+				badForm = "net.JoinHostPort is used on a path where the host may have no colon: it would not be bracketed"
+			}
+		}
+		rows = append(rows, row{conds, form})
 	})
 	if err != nil {
 		r.Undecided("R2", "xmpp.ensurePort#returns", w.pos(ep.Pos()), err.Error())
@@ -116,127 +165,143 @@ func runC20(w *World, r *Report, tier string) {
 		r.Fail("R4", "xmpp.ensurePort#decision-table", w.pos(ep.Pos()), "ensurePort does not implement the documented decision table; unexpected rows: "+strings.Join(extra, " ;; "))
 	}
 
-	// R1 / R3 constructors
+	// R1 / R3 constructors (path-based, helpers walked through)
 	fAddr := w.Field("xmpp.TransportConfiguration.Address")
 	for _, k := range []string{"xmpp.NewClientTransport", "xmpp.NewComponentTransport"} {
 		fn := w.Func(k)
 		cfg := fn.Params[0]
-		// prefixes tested
+		isCfgAddr := func(nfv string) bool {
+			return strings.HasSuffix(nfv, "."+fAddr.Name()) && (strings.Contains(nfv, "param:"+cfg.Name()) || strings.Contains(nfv, "alloc:"+cfg.Name()))
+		}
 		prefixes := map[string]bool{}
-		wsEdges := edgesAsserting(fn, func(c ssa.Value, truth bool) bool {
-			call, _ := callResult(c)
-			if call == nil || w.callKey(call) != "strings.HasPrefix" || !truth {
-				return false
+		badR3, badR1 := "", ""
+		nMatched, nPlain := 0, 0
+		errW := walkPaths(entryLoc(fn), nil, nil, 20000, func(path []ssa.Instruction, end pathEnd) {
+			ret, ok := path[len(path)-1].(*ssa.Return)
+			if !ok || end == endCycle {
+				badR3 = "the constructor loops or panics"
+				return
 			}
-			p, isS := stringConst(call.Call.Args[1])
-			if !isS || !addrOfParam(call.Call.Args[0], cfg, fAddr) {
-				return false
-			}
-			prefixes[p] = true
-			return true
-		})
-		r.Check(fmt.Sprint(keys(prefixes)) == "[ws: wss:]", "R3", k+"#prefixes", w.pos(fn.Pos()), fmt.Sprintf("the constructor tests the scheme prefixes %v of config.Address, not [ws: wss:]", keys(prefixes)), "tests ws: and wss:")
-		// the XMPP transport (and ensurePort) only when neither prefix matched; the websocket/error result only when one matched
-		var xmppAllocs, wsAllocs []ssa.Instruction
-		allInstrs(fn, func(in ssa.Instruction) {
-			if al, ok := in.(*ssa.Alloc); ok && al.Heap {
-				ts := w.typeStr(al.Type())
-				if ts == "*xmpp.XMPPTransport" {
-					xmppAllocs = append(xmppAllocs, in)
-				}
-				if ts == "*xmpp.WebsocketTransport" {
-					wsAllocs = append(wsAllocs, in)
-				}
-			}
-		})
-		okSplit := len(xmppAllocs) == 1
-		for _, x := range xmppAllocs {
-			// unreachable if a prefix matched: i.e. every path to it takes only false edges: reachable with true-edges cut, but NOT reachable if false edges are cut
-			if !reachable(entryLoc(fn), func(in ssa.Instruction) bool { return in == x }, nil, wsEdges) {
-				okSplit = false
-			}
-			// and on each path none of the true edges was taken: check by cutting false edges → unreachable
-			falseEdges := EdgeSet{}
-			for e := range wsEdges {
-				falseEdges[Edge{e.From, 1 - e.Succ}] = true
-			}
-			// any path to x must traverse all tests' false edges; removing one false edge at a time must cut it off only together — simple check: with all true edges kept and all false edges cut, x is unreachable
-			if reachable(entryLoc(fn), func(in ssa.Instruction) bool { return in == x }, nil, falseEdges) && len(falseEdges) > 0 {
-				// reachable through true edges only → wrong
-				okSplit = false
-			}
-		}
-		r.Check(okSplit, "R3", k+"#xmpp-branch", w.pos(fn.Pos()), "the TCP transport is not built exactly when neither ws: nor wss: prefixes the address", "XMPPTransport only when no websocket scheme matched")
-		if k == "xmpp.NewClientTransport" {
-			okWS := len(wsAllocs) == 1 && !reachable(entryLoc(fn), func(in ssa.Instruction) bool { return in == wsAllocs[0] }, nil, wsEdges)
-			r.Check(okWS, "R3", k+"#websocket-branch", w.pos(fn.Pos()), "a ws:/wss: address does not select the WebSocket transport (only) for clients", "WebsocketTransport only under a matched prefix")
-		} else {
-			// error wrapping ErrTransportProtocolNotSupported under the prefix edges; nil transport
-			okErr := false
-			allInstrs(fn, func(in ssa.Instruction) {
-				rt, ok := in.(*ssa.Return)
-				if !ok || isNilConst(rt.Results[1]) {
-					return
-				}
-				if c, ok := rt.Results[1].(*ssa.Call); ok && (w.callKey(c) == "fmt.Errorf") {
-					f, _ := stringConst(c.Call.Args[0])
-					wraps := strings.Contains(f, "%w")
-					isSentinel := false
-					for _, el := range varargElems(c.Call.Args[1]) {
-						if strings.Contains(w.nf(el, 0), "global:ErrTransportProtocolNotSupported") {
-							isSentinel = true
-						}
-					}
-					if wraps && isSentinel && isNilConst(rt.Results[0]) && !reachable(entryLoc(fn), func(x ssa.Instruction) bool { return x == in }, nil, wsEdges) {
-						okErr = true
-					}
-				} else if strings.Contains(w.nf(rt.Results[1], 0), "global:ErrTransportProtocolNotSupported") && isNilConst(rt.Results[0]) {
-					okErr = !reachable(entryLoc(fn), func(x ssa.Instruction) bool { return x == in }, nil, wsEdges)
-				}
-			})
-			r.Check(okErr && len(wsAllocs) == 0, "R3", k+"#websocket-refused", w.pos(fn.Pos()), "a ws:/wss: address is not refused for components with an error wrapping ErrTransportProtocolNotSupported", "nil, error wrapping ErrTransportProtocolNotSupported")
-		}
-		// R1: Config.Address = ensurePort(config.Address, 5222)
-		eps := w.callsIn(fn, "xmpp.ensurePort")
-		okEP := len(eps) == 1
-		detail := fmt.Sprintf("%d ensurePort calls", len(eps))
-		if okEP {
-			args := eps[0].Common().Args
-			p, isC := intConst(args[1])
-			if !addrOfParam(args[0], cfg, fAddr) || !isC || p != 5222 {
-				okEP = false
-				detail = "ensurePort is not applied to config.Address with the default port 5222: " + w.nf(args[0], 0) + ", " + w.nf(args[1], 0)
-			}
-			// result stored to the config copy's Address, and that config is what the transport gets
-			stored := false
-			for _, rf := range *eps[0].(*ssa.Call).Referrers() {
-				if st, ok := rf.(*ssa.Store); ok {
-					if fa, ok := st.Addr.(*ssa.FieldAddr); ok && fieldOfAddr(fa) == fAddr {
-						stored = true
-					}
-				}
-			}
-			if !stored {
-				okEP = false
-				detail = "the normalised address is not stored into the transport's configuration"
-			}
-			// the store precedes the copy of config into the transport
-			for _, x := range xmppAllocs {
-				fields, _ := complitFields(x.(*ssa.Alloc))
-				cv := fields["Config"]
-				ld, isLoad := cv.(*ssa.UnOp)
-				if cv == nil || !isLoad {
-					okEP = false
-					detail = "the transport's Config is not the (normalised) configuration"
+			matched, nFalse := false, 0
+			other := ""
+			for _, c := range w.pathConds(path) {
+				if !strings.HasPrefix(c, "strings.HasPrefix(") {
+					other = c
 					continue
 				}
-				if !reachable(after(eps[0].(ssa.Instruction)), func(in ssa.Instruction) bool { return in == ssa.Instruction(ld) }, nil, nil) {
-					okEP = false
-					detail = "the configuration is copied into the transport before the address is normalised"
+				inner := strings.TrimPrefix(c, "strings.HasPrefix(")
+				truth := strings.HasSuffix(inner, "=true")
+				inner = strings.TrimSuffix(strings.TrimSuffix(inner, "=true"), "=false")
+				inner = strings.TrimSuffix(inner, ")")
+				j := strings.LastIndex(inner, ",")
+				if j < 0 || !isCfgAddr(inner[:j]) {
+					other = c
+					continue
+				}
+				p := strings.Trim(inner[j+1:], "\"")
+				prefixes[p] = true
+				if truth {
+					matched = true
+				} else {
+					nFalse++
 				}
 			}
+			if other != "" {
+				badR3 = "the choice of transport depends on something other than the ws:/wss: prefix of config.Address: " + other
+			}
+			// what is returned on this path
+			res0 := rvI(ret.Results[0], len(path)-1)
+			kind := "?"
+			if mi, ok := res0.(*ssa.MakeInterface); ok {
+				kind = w.typeStr(mi.X.Type())
+			} else if isNilConst(res0) {
+				kind = "nil"
+			}
+			if matched {
+				nMatched++
+				if k == "xmpp.NewClientTransport" {
+					if kind != "*xmpp.WebsocketTransport" {
+						badR3 = "a ws:/wss: address does not give the client a WebSocket transport (returns " + kind + ")"
+					}
+				} else {
+					errV := rvI(ret.Results[1], len(path)-1)
+					wraps := false
+					if c, ok := errV.(*ssa.Call); ok && w.callKey(c) == "fmt.Errorf" {
+						f, _ := stringConst(c.Call.Args[0])
+						for _, el := range varargElems(c.Call.Args[1]) {
+							if strings.Contains(w.nf(el, 0), "global:ErrTransportProtocolNotSupported") && strings.Contains(f, "%w") {
+								wraps = true
+							}
+						}
+					} else if strings.Contains(w.nf(errV, 0), "global:ErrTransportProtocolNotSupported") {
+						wraps = true
+					}
+					if kind != "nil" || !wraps {
+						badR3 = "a ws:/wss: address is not refused for components with an error wrapping ErrTransportProtocolNotSupported"
+					}
+				}
+				return
+			}
+			if nFalse < 2 {
+				badR3 = "a transport is chosen without both scheme prefixes having been tested"
+				return
+			}
+			nPlain++
+			if kind != "*xmpp.XMPPTransport" {
+				badR3 = "an address without websocket scheme does not give the TCP transport (returns " + kind + ")"
+				return
+			}
+			// R1: the transport's Config is the configuration whose Address was replaced by ensurePort(config.Address, 5222) earlier on the path
+			var ep *ssa.Call
+			epIdx := -1
+			for i, in := range path {
+				if c, ok := in.(*ssa.Call); ok && w.callKey(c) == "xmpp.ensurePort" {
+					ep, epIdx = c, i
+				}
+			}
+			if ep == nil {
+				badR1 = "the address is not normalised with ensurePort"
+				return
+			}
+			if !isCfgAddr(w.nfOn(ep.Call.Args[0], path)) {
+				badR1 = "ensurePort is not applied to config.Address"
+			}
+			if p, isC := intConst(rvI(ep.Call.Args[1], epIdx)); !isC || p != 5222 {
+				badR1 = "the default port is not 5222"
+			}
+			storeIdx, copyIdx := -1, -1
+			for i, in := range path {
+				if st, ok := in.(*ssa.Store); ok {
+					if fa, ok := rvI(st.Addr, i).(*ssa.FieldAddr); ok && fieldOfAddr(fa) == fAddr && rvI(st.Val, i) == ssa.Value(ep) {
+						storeIdx = i
+					}
+					// copy of the configuration into the transport literal
+					if fa, ok := st.Addr.(*ssa.FieldAddr); ok && fieldOfAddr(fa).Name() == "Config" && strings.HasSuffix(w.typeStr(fa.X.Type()), "xmpp.XMPPTransport") {
+						if u, ok := st.Val.(*ssa.UnOp); ok {
+							for j, in2 := range path {
+								if in2 == ssa.Instruction(u) {
+									copyIdx = j
+								}
+							}
+						}
+					}
+				}
+			}
+			if storeIdx < 0 {
+				badR1 = "the normalised address is not stored into the configuration"
+			} else if copyIdx < 0 {
+				badR1 = "the transport is not built from the (normalised) configuration"
+			} else if copyIdx < storeIdx {
+				badR1 = "the configuration is copied into the transport before its address is normalised"
+			}
+		})
+		if errW != nil {
+			r.Undecided("R3", k, w.pos(fn.Pos()), errW.Error())
+			continue
 		}
-		r.Check(okEP, "R1", k+"#address", w.pos(fn.Pos()), detail, "Config.Address = ensurePort(config.Address, 5222), then copied into the transport")
+		r.Check(fmt.Sprint(keys(prefixes)) == "[ws: wss:]", "R3", k+"#prefixes", w.pos(fn.Pos()), fmt.Sprintf("the constructor tests the scheme prefixes %v of config.Address, not [ws: wss:]", keys(prefixes)), "tests ws: and wss:")
+		r.Check(badR3 == "" && nMatched > 0 && nPlain > 0, "R3", k+"#outcome", w.pos(fn.Pos()), badR3, fmt.Sprintf("%d path(s) with a matched scheme → %s; %d path(s) without → TCP transport", nMatched, map[string]string{"xmpp.NewClientTransport": "WebSocket transport", "xmpp.NewComponentTransport": "error wrapping ErrTransportProtocolNotSupported"}[k], nPlain))
+		r.Check(badR1 == "" && nPlain > 0, "R1", k+"#address", w.pos(fn.Pos()), badR1, "Config.Address = ensurePort(config.Address, 5222), then copied into the transport")
 	}
 	// XMPPTransport.Connect dials Config.Address
 	conn := w.Func("xmpp.(*XMPPTransport).Connect")
